@@ -80,6 +80,9 @@ def run(case):
         out["relabel_tracks"] = _oann(tb, mk().relabel_tracks(generator=_gen(case["gen"])))
         b = mk()
         out["subset"] = _oann(tb, b.subset(list(case["subset"])))
+        for arg in (tuple(case["subset"]), iter(list(case["subset"])), (x for x in case["subset"]), dict.fromkeys(case["subset"]).keys()):
+            assert _oann(tb, b.subset(arg)) == out["subset"], "subset() depends on the container type of `labels`"
+        assert _oann(tb, b.subset(iter(list(case["subset"])), invert=True)) == _oann(tb, b.subset(set(case["subset"]), invert=True))
         out["subset_inv"] = _oann(tb, b.subset(set(case["subset"]), invert=True))
         assert triples(tb, b) == triples(tb, mk())
         # a caller-owned iterator is advanced by exactly one element per name handed out
